@@ -13,9 +13,13 @@ Part C — validation with real threads: writer threads call `notify` (together 
          while the main thread runs poll passes; monitors only (no model): no `notify` raises; no lost wake-up:
          every notify that began after the last completed read of the pipe leaves the pipe readable.
 
-The model is a family (`readOnce`): the code as it is reads the pipe until it is empty; a single
-`os.read(fd, 1024)` per notification is covered by the same theorems (it only causes further wake-ups).  The
-variant in effect is probed once and the matching model is used; it is reported under coverage, not as a finding.
+The model is a family (`chunk`): the code as it is reads the pipe until it is empty (`chunk = 0`); a single
+`os.read(fd, n)` per notification is covered by the same theorems (it only causes further wake-ups).  The variant
+in effect is probed once and the matching model is used; it is reported under coverage, not as a finding.  With a
+reader that leaves bytes behind the kernel may refuse a byte although the pipe is not full (no room on the tail
+page); the model takes the kernel's answer for a non-empty, non-full pipe as an input (`notify acc`) and fixes it
+only where the property needs it (an EMPTY pipe always takes the byte): for such a variant the observed answers are
+fed to the model, for the code as it is the model runs on its own (all answers `true`).
 Property monitors: `notify` never raises (D67), a notify since the last read ⇒ readable (no lost wake-up).
 """
 import errno
@@ -91,13 +95,17 @@ class RealNotifier(object):
     def _drained(self):
         self.drains[0] += 1
 
-    def notify(self, k):
+    def notify(self, k, bits=None):
+        """k notify calls; with `bits` (a list) the kernel's answer to every write is recorded there"""
         raised = None
         for _ in range(k):
+            before = pipe_bytes(self.r) if bits is not None else 0
             try:
                 self.pn.notify()
             except BaseException as e:   # noqa
                 raised = "%s(%s)" % (type(e).__name__, e)
+            if bits is not None:
+                bits.append("1" if pipe_bytes(self.r) > before else "0")
         return raised
 
     def poll(self):
@@ -116,19 +124,22 @@ class RealNotifier(object):
 
 
 def probe_variant(so, cap):
-    """which drain variant does the tree under test have? -> (readOnce flag | None, left over)"""
+    """which drain variant does the tree under test have? -> (chunk | None, bytes left by the probe).
+    chunk 0 = everything is read (a single read of >= cap bytes is the same thing)"""
     rn = RealNotifier(so)
     try:
-        n = min(cap, 2000)
-        rn.notify(n)
+        rn.notify(cap)
         rn.poll()
         left = pipe_bytes(rn.r)
+        rn.poll()
+        left2 = pipe_bytes(rn.r)
     finally:
         rn.close()
     if left == 0:
-        return False, left
-    if left == n - min(n, 1024):
-        return True, left
+        return 0, left
+    chunk = cap - left
+    if chunk >= 1 and left2 == left - min(left, chunk):
+        return chunk, left
     return None, left
 
 
@@ -152,17 +163,18 @@ def part_a_cases(ctx, rng, cap):
     return cases
 
 
-def run_a_real(so, steps):
+def run_a_real(so, steps, record=False):
     rn = RealNotifier(so)
     out = []
     try:
         for st in steps:
-            raised = None
+            raised, bits = None, ([] if record else None)
             if st[0] == "notify":
-                raised = rn.notify(st[1])
+                raised = rn.notify(st[1], bits)
             else:
                 rn.poll()
-            out.append({"pipe": pipe_bytes(rn.r), "readable": readable(rn.r), "raised": raised})
+            out.append({"pipe": pipe_bytes(rn.r), "readable": readable(rn.r), "raised": raised,
+                        "bits": "".join(bits) if bits else ""})
     finally:
         rn.close()
     return out
@@ -195,6 +207,7 @@ def run_b_real(so, RecTransport, qsize, steps):
         dq = o._SyncObj__commandsQueue._FastQueue__queue
         for st in steps:
             raised, full = None, False
+            before = pipe_bytes(r)
             if st[0] == "apply":
                 got = []
                 try:
@@ -206,7 +219,8 @@ def run_b_real(so, RecTransport, qsize, steps):
                 o._checkCommandsToApply()
             else:
                 o._poller.poll(0.0)
-            out.append({"pipe": pipe_bytes(r), "qlen": len(dq), "raised": raised, "full": full})
+            out.append({"pipe": pipe_bytes(r), "qlen": len(dq), "raised": raised, "full": full,
+                        "bit": "1" if pipe_bytes(r) > before else "0"})
     finally:
         o._SyncObj__raftState = 0
         try:
@@ -296,11 +310,12 @@ def _run(ctx, so, t0):
         res["inconclusive"] = "could not shrink a pipe on this kernel (capacity %d)" % cap
         return res
     ro, left = probe_variant(so, cap)
-    cov["drain_variant"] = {False: "read-until-empty", True: "single-read-1024", None: "unknown(left %d)" % left}[ro]
+    cov["drain_variant"] = "read-until-empty" if ro == 0 else ("single-read-%d" % ro if ro else "unknown(left %d)" % left)
     if ro is None:
-        res["disagreements"].append({"input": "probe: %d notifies, one poll pass" % min(cap, 2000), "model": "0 or n-1024 bytes left",
-                                     "impl": "%d bytes left" % left, "note": "__onNewNotification matches no modelled drain variant"})
-        ro = False
+        res["disagreements"].append({"input": "probe: %d notifies, two poll passes" % cap, "model": "a fixed number of bytes per pass",
+                                     "impl": "%d bytes left after the first pass" % left,
+                                     "note": "__onNewNotification matches no modelled drain variant"})
+        ro = 0
     distinct = set()
 
     def add_viol(sig, what, replay):
@@ -309,7 +324,14 @@ def _run(ctx, so, t0):
 
     # ---- Part A
     cases = part_a_cases(ctx, rng, cap)
-    lines = [json.dumps({"op": "wake", "max": 5, "cap": cap, "readOnce": ro, "steps": st}) for st in cases]
+    reals_a = [run_a_real(so, st, record=bool(ro)) for st in cases]
+
+    def model_steps_a(steps, real):
+        if not ro:
+            return steps                      # the code as it is: the model needs nothing from the observation
+        return [(["notifyBits", r["bits"]] if st[0] == "notify" else st) for st, r in zip(steps, real)]
+    lines = [json.dumps({"op": "wake", "max": 5, "cap": cap, "chunk": ro, "steps": model_steps_a(st, rl)})
+             for st, rl in zip(cases, reals_a)]
     try:
         outs = ctx.driver("queue", lines)
     except Exception as e:   # noqa
@@ -317,9 +339,8 @@ def _run(ctx, so, t0):
         return res
     for k in ("a_notify_ok", "a_notify_on_full_pipe", "a_poll_readable", "a_poll_idle", "a_left_after_poll"):
         cov[k] = 0
-    for steps, line in zip(cases, outs):
+    for steps, line, real in zip(cases, outs, reals_a):
         mj = json.loads(line)
-        real = run_a_real(so, steps)
         res["cases"] += 1
         distinct.add(qc.canon(["a", steps]))
         if "error" in mj:
@@ -352,17 +373,22 @@ def _run(ctx, so, t0):
     RecTransport = qc.make_transport_class(so)
     cases = part_b_cases(ctx, rng)
     qsizes = [rng.choice([0, 1, 2, 5]) for _ in cases]
-    lines = []
-    for steps, qs in zip(cases, qsizes):
+    reals_b = [run_b_real(so, RecTransport, qs, st) for st, qs in zip(cases, qsizes)]
+
+    def model_steps_b(steps, real, full_at=None):
         ms = []
-        for st in steps:
+        for i, st in enumerate(steps):
             if st[0] == "apply":
-                ms += [["put", st[1]], ["notify", 1]]
+                ms.append(["put", st[1]])
+                if not (full_at and full_at[i]):
+                    ms.append(["notifyBits", real[i]["bit"]] if ro else ["notify", 1])
             elif st[0] == "process":
                 ms.append(["process", 1000])
             else:
                 ms.append(["poll"])
-        lines.append(json.dumps({"op": "wake", "max": qs, "cap": cap, "readOnce": ro, "steps": ms}))
+        return ms
+    lines = [json.dumps({"op": "wake", "max": qs, "cap": cap, "chunk": ro, "steps": model_steps_b(st, rl)})
+             for st, qs, rl in zip(cases, qsizes, reals_b)]
     try:
         outs = ctx.driver("queue", lines)
     except Exception as e:   # noqa
@@ -370,9 +396,8 @@ def _run(ctx, so, t0):
         return res
     for k in ("b_apply_ok", "b_apply_queue_full", "b_process_nonempty", "b_poll_readable", "b_poll_idle", "b_sleep_allowed"):
         cov[k] = 0
-    for steps, qs, line in zip(cases, qsizes, outs):
+    for steps, qs, line, real in zip(cases, qsizes, outs, reals_b):
         mj = json.loads(line)
-        real = run_b_real(so, RecTransport, qs, steps)
         res["cases"] += 1
         distinct.add(qc.canon(["b", qs, steps]))
         if "error" in mj:
@@ -393,16 +418,9 @@ def _run(ctx, so, t0):
                            "skip": False})
         # the model took a notify the code skipped (QUEUE_FULL): replay the model without those notifies
         if any(x["skip"] for x in mm):
-            ms = []
             full_at = [x["full"] for x in mm]
-            for st, fl in zip(steps, full_at):
-                if st[0] == "apply":
-                    ms += [["put", st[1]]] + ([] if fl else [["notify", 1]])
-                elif st[0] == "process":
-                    ms.append(["process", 1000])
-                else:
-                    ms.append(["poll"])
-            m2 = json.loads(ctx.driver("queue", [json.dumps({"op": "wake", "max": qs, "cap": cap, "readOnce": ro, "steps": ms})])[0])
+            ms = model_steps_b(steps, real, full_at)
+            m2 = json.loads(ctx.driver("queue", [json.dumps({"op": "wake", "max": qs, "cap": cap, "chunk": ro, "steps": ms})])[0])
             mm, j = [], 0
             for st, fl in zip(steps, full_at):
                 n = 1 if (st[0] != "apply" or fl) else 2
